@@ -6,7 +6,10 @@ impl cbor_event::se::Serialize for Int {
         &self,
         serializer: &'se mut Serializer<W>,
     ) -> cbor_event::Result<&'se mut Serializer<W>> {
-        if self.0 < 0 {
+        if self.0 == i64::MIN as i128 {
+            // cbor_event negates its i64 argument, which overflows for i64::MIN: write -2^63 (nint, 8-byte argument 2^63 - 1) directly
+            serializer.write_raw_bytes(&[0x3b, 0x7f, 0xff, 0xff, 0xff, 0xff, 0xff, 0xff, 0xff])
+        } else if self.0 < 0 {
             serializer.write_negative_integer(self.0 as i64)
         } else {
             serializer.write_unsigned_integer(self.0 as u64)
